@@ -56,6 +56,9 @@ type C11Reopen struct {
 	OldFrames int  `json:"old_frames,omitempty"` // frames the peer sends to the old incarnation (<= queue length), all dispatched before Close
 	OldRead   int  `json:"old_read,omitempty"`   // how many of them the old handle reads before it is closed
 	Repeat    int  `json:"repeat,omitempty"`     // the first Close is called this many times
+	// Openers: the id is re-opened on Side by several goroutines at the same time (one letter
+	// each: o = Open, d = Dialer); the case uses the handle the first of them received
+	Openers string `json:"openers,omitempty"`
 	// repeated Close of the stale handle(s): number of concurrent closers (0 = not at this point)
 	StaleBefore      int `json:"stale_before,omitempty"` // after the re-open, before any traffic
 	StaleDuring      int `json:"stale_during,omitempty"` // when the StaleAfterWrites-th Write is about to start
@@ -245,6 +248,9 @@ func genC11(t *rapid.T) C11Case {
 		for i := 0; i < n; i++ {
 			ro := C11Reopen{Side: rapid.IntRange(0, 1).Draw(t, "ro_side"), Conn: (first + i) % len(c.IDs),
 				Both: rapid.IntRange(0, 2).Draw(t, "ro_both") == 0, Repeat: rapid.SampledFrom([]int{1, 1, 2}).Draw(t, "ro_repeat")}
+			if rapid.IntRange(0, 1).Draw(t, "ro_conc") == 0 {
+				ro.Openers = rapid.StringMatching(`[od]{2,4}`).Draw(t, "ro_openers")
+			}
 			if rapid.IntRange(0, 2).Draw(t, "ro_old") == 0 {
 				ro.OldFrames = rapid.IntRange(1, min(4, c.QLen)).Draw(t, "ro_oldframes")
 				ro.OldRead = rapid.IntRange(0, ro.OldFrames).Draw(t, "ro_oldread")
